@@ -10,6 +10,9 @@ HARNESS_BIN = {
     "miniwasm": os.path.join(ROOT, "harness", "target-miniwasm", "debug", "mw-harness"),
 }
 DRIVER_BIN = os.path.join(ROOT, "lean", ".lake", "build", "bin", "driver")
+# tools/coverage.py points the osmosis build at a binary built with -Cinstrument-coverage
+if os.environ.get("MW_HARNESS_BIN"):
+    HARNESS_BIN["osmosis"] = os.environ["MW_HARNESS_BIN"]
 
 
 class Proc:
